@@ -52,22 +52,23 @@ type frameObs struct {
 }
 
 type caseOut struct {
-	ID        int        `json:"id"`
-	E2E       bool       `json:"e2e"`
-	Cmd       string     `json:"cmd"`
-	W         int        `json:"w"`
-	VPN       bool       `json:"vpn"`
-	Filter    int        `json:"filter"`
-	Subnet    string     `json:"subnet"`
-	Net       int64      `json:"net"`
-	Bits      int        `json:"bits"`
-	Ports     [][2]int   `json:"ports"`
-	SrcIP     string     `json:"srcip"`
-	Text      string     `json:"text"`
-	Err       string     `json:"err,omitempty"`       // the engine or the driver failed
-	Sentinel  string     `json:"sentinel,omitempty"`  // hex of the first sentinel frame
-	Unmatched []string   `json:"unmatched,omitempty"` // records that belong to no injected frame
-	Frames    []frameObs `json:"frames"`
+	ID            int        `json:"id"`
+	E2E           bool       `json:"e2e"`
+	Cmd           string     `json:"cmd"`
+	W             int        `json:"w"`
+	VPN           bool       `json:"vpn"`
+	Filter        int        `json:"filter"`
+	Subnet        string     `json:"subnet"`
+	Net           int64      `json:"net"`
+	Bits          int        `json:"bits"`
+	Ports         [][2]int   `json:"ports"`
+	SrcIP         string     `json:"srcip"`
+	Text          string     `json:"text"`
+	Err           string     `json:"err,omitempty"`       // the engine or the driver failed
+	Sentinel      string     `json:"sentinel,omitempty"`  // hex of the first sentinel frame
+	Unmatched     []string   `json:"unmatched,omitempty"` // records that belong to no injected frame
+	UnmatchedRecs []frameObs `json:"unmatched_recs,omitempty"`
+	Frames        []frameObs `json:"frames"`
 }
 
 // method = no probes at all + the real processor of the wiring
@@ -225,6 +226,8 @@ func matchRecords(c *caseOut, filter int, tun bool, between []rec) {
 		}
 		if best < 0 {
 			c.Unmatched = append(c.Unmatched, fmt.Sprintf("%+v", x))
+			c.UnmatchedRecs = append(c.UnmatchedRecs, frameObs{Record: true, N: 1, IP: x.ip, Port: x.port, Flags: x.flags,
+				TTL: x.ttl, Type: x.t, Code: x.c, MAC: x.mac, Scan: x.scan})
 			continue
 		}
 		o := &c.Frames[best]
